@@ -9,6 +9,7 @@ Local Open Scope Z_scope.
 Lemma tie_calls :
   Gen_Kill.calls_step_exec = model_calls_step_exec /\
   Gen_Kill.calls_exitstatus = model_calls_exitstatus /\
+  Gen_Kill.calls_waiteof = model_calls_waiteof /\
   Gen_Kill.calls_killwaitpg = model_calls_killwaitpg /\
   Gen_Kill.calls_killwaitpg1 = model_calls_killwaitpg1 /\
   Gen_Kill.calls_siginstall = model_calls_siginstall /\
@@ -19,7 +20,8 @@ Proof. repeat split; reflexivity. Qed.
 
 Lemma tie_constants :
   Gen_Kill.ex_timeout = 124 /\ Gen_Kill.kill_timeout_ms = 5000 /\ Gen_Kill.kill_poll_ms = 100 /\
-  npolls = 50%nat.
+  npolls = 50%nat /\
+  Gen_Kill.pipe_timeout_ms = 1000 /\ Gen_Kill.pipe_poll_ms = 1 /\ hpolls = 1000%nat.
 Proof. repeat split; reflexivity. Qed.
 
 Lemma npolls_pos : exists k, npolls = S k.
@@ -212,7 +214,7 @@ Definition done_inv (s : state) : Prop :=
 
 (* holds from the moment a signal has interrupted the blocking waitpid *)
 Definition KInv (s : state) : Prop :=
-  sigset (s_gotsig s) /\ s_event s <> None /\
+  sigset (s_gotsig s) /\ s_event s <> None /\ s_slow s = false /\
   match s_pc s with
   | PWaitIntr | PKillSend PhTerm => s_reaped s = false /\ s_kills s = []
   | PPoll PhTerm n =>
@@ -248,12 +250,12 @@ Proof. unfold dead, p_alive. destruct (p_st p); [eauto|discriminate]. Qed.
 
 Lemma KInv_step l s s' : KInv s -> apply_label l s = Some s' -> KInv s'.
 Proof.
-  destruct s as [pc g st tmo ar m r rp k ev lt].
-  unfold KInv, done_inv, grp_ddead, grp_dead; simpl. intros (Hg & Hev & H) Hl.
-  destruct l as [|sig|i]; simpl in Hl.
+  destruct s as [pc g st tmo ar m r rp k ev lt up sl].
+  unfold KInv, done_inv, grp_ddead, grp_dead; simpl. intros (Hg & Hev & Hsl & H) Hl. subst sl.
+  destruct l as [|sig|i|]; simpl in Hl.
   - (* the runner *)
     unfold rstep, main_zombie in Hl; simpl in Hl.
-    destruct pc as [| | | | | | | |ph|ph n| |c|sg]; try contradiction.
+    destruct pc as [| | | | | | | |ph|ph n| |c|sg|hn| | | | ]; try contradiction.
     + (* PWaitIntr *)
       rewrite (sigset_nonzero _ Hg) in Hl. injection Hl as <-. simpl. auto.
     + (* PKillSend *)
@@ -280,8 +282,8 @@ Proof.
       * destruct H as (Hr & Hk & (Hm & Ht) & Hi & Hn). subst rp n.
         destruct npolls_pos as [q Hq]. rewrite Hq in Hl.
         destruct (dead_st _ Hm) as [w E]. rewrite E in Hl. injection Hl as <-. simpl.
-        split; [|split]; auto. split; [reflexivity|]. split; [exact E|].
-        split; [apply (grp_dead_ddead (mkstate PWaitDone g w tmo ar m r true k ev lt)); split; auto|].
+        split; [|split; [|split]]; auto. split; [reflexivity|]. split; [exact E|].
+        split; [apply (grp_dead_ddead (mkstate PWaitDone g w tmo ar m r true k ev lt up false)); split; auto|].
         right. repeat split; auto.
     + (* PWaitDone *)
       injection Hl as <-. simpl. repeat split; try apply H; auto.
@@ -291,11 +293,11 @@ Proof.
     assert (Hrec : forall sg, sigset sg ->
               match pc with
               | PWaitIntr | PKillSend _ | PPoll _ _ | PWaitDone => True | _ => False end ->
-              KInv (record_sig sg (mkstate pc g st tmo ar m r rp k ev lt))).
+              KInv (record_sig sg (mkstate pc g st tmo ar m r rp k ev lt up false))).
     { intros sg Hsg Hpc. unfold KInv, done_inv, grp_ddead, grp_dead, record_sig; simpl.
-      split; [exact Hsg|]. split; [destruct rp; [exact Hev|discriminate]|].
-      destruct pc as [| | | | | | | |ph|ph n| |c|sg']; try contradiction; exact H. }
-    destruct pc as [| | | | | | | |ph|ph n| |c|sg']; try contradiction; simpl in Hl;
+      split; [exact Hsg|]. split; [destruct rp; [exact Hev|discriminate]|]. split; [reflexivity|].
+      destruct pc as [| | | | | | | |ph|ph n| |c|sg'|hn| | | | ]; try contradiction; exact H. }
+    destruct pc as [| | | | | | | |ph|ph n| |c|sg'|hn| | | | ]; try contradiction; simpl in Hl;
       try discriminate;
       (destruct (Z.eqb_spec sig SIGTERM) as [->|Hn1];
        [injection Hl as <-; apply Hrec; [left; reflexivity|exact I]
@@ -303,14 +305,14 @@ Proof.
         [destruct ar; [injection Hl as <-; apply Hrec; [right; reflexivity|exact I]|discriminate]
         |discriminate]]).
   - (* a member exits on its own *)
-    unfold exit_member in Hl; simpl in Hl.
+    unfold exit_member in Hl; simpl in Hl. destruct up; simpl in Hl; [|discriminate].
     destruct i as [|j].
     + destruct (self_exit m) as [m'|] eqn:E; [|discriminate]. injection Hl as <-. simpl.
       destruct (self_exit_alive _ _ E) as [Ha Hd].
       assert (Hdisp : p_disp m' = p_disp m).
       { change (m_disp (member_of m') = m_disp (member_of m)). now rewrite (self_exit_member _ _ E). }
-      split; [exact Hg|]. split; [exact Hev|].
-      destruct pc as [| | | | | | | |ph|ph n| |c|sg]; try contradiction; try exact H.
+      split; [exact Hg|]. split; [exact Hev|]. split; [reflexivity|].
+      destruct pc as [| | | | | | | |ph|ph n| |c|sg|hn| | | | ]; try contradiction; try exact H.
       * destruct ph; [exact H|].
         destruct H as (Hr & Hk & (Hm & Ht) & Hi). rewrite Hdisp. repeat split; auto. now apply dead_ddead.
       * destruct ph.
@@ -325,8 +327,8 @@ Proof.
       { intros Hf. apply Forall_update; [exact Hf|now apply dead_ddead]. }
       assert (Hde : Forall dead r -> Forall dead (update_nth j p' r)).
       { intros Hf. apply Forall_update; [exact Hf|exact Hd]. }
-      split; [exact Hg|]. split; [exact Hev|].
-      destruct pc as [| | | | | | | |ph|ph n| |c|sg]; try contradiction; try exact H.
+      split; [exact Hg|]. split; [exact Hev|]. split; [reflexivity|].
+      destruct pc as [| | | | | | | |ph|ph n| |c|sg|hn| | | | ]; try contradiction; try exact H.
       * destruct ph; [exact H|].
         destruct H as (Hr & Hk & (Hm & Ht) & Hi). repeat split; auto.
       * destruct ph.
@@ -336,65 +338,46 @@ Proof.
         destruct Hk as [Hk|(Hk & Hi & Hm' & Ht')]; [left; exact Hk|right; repeat split; auto].
       * destruct H as ((Hr & Hst & (Hm & Ht) & Hk) & Hc). repeat split; auto.
         destruct Hk as [Hk|(Hk & Hi & Hm' & Ht')]; [left; exact Hk|right; repeat split; auto].
+  - (* the group comes up *)
+    unfold group_up in Hl; simpl in Hl. destruct up; [discriminate|]. injection Hl as <-.
+    unfold grp_ddead, grp_dead; simpl. auto.
 Qed.
 
 (* ---- invariants of every execution from the fork on ---------------------------------------------------- *)
 
 Definition procs_ok (s : state) : Prop := proc_ok (s_main s) /\ Forall proc_ok (s_rest s).
 
+(* case analysis of one transition: split every match of the hypothesis *)
+Ltac split_step H :=
+  repeat match type of H with
+         | context [match ?x with _ => _ end] => destruct x eqn:?
+         end;
+  try discriminate H; try (injection H as <-).
+
 Lemma procs_ok_step l s s' : procs_ok s -> apply_label l s = Some s' -> procs_ok s'.
 Proof.
-  destruct s as [pc g st tmo ar m r rp k ev lt]. unfold procs_ok; simpl. intros [Hm Hr] Hl.
-  destruct l as [|sig|i]; simpl in Hl.
-  - unfold rstep, main_zombie in Hl; simpl in Hl.
-    destruct pc as [| | | | | | | |ph|ph n| |c|sg]; try discriminate;
-      try (injection Hl as <-; simpl; auto; fail).
-    + destruct rp; [discriminate|]. destruct (p_st m); [|discriminate]. injection Hl as <-. simpl; auto.
-    + destruct (g =? 0); injection Hl as <-; simpl; auto.
-    + injection Hl as <-. simpl. split; [now apply deliver_ok|].
-      apply Forall_map_deliver; [intros; now apply deliver_ok|exact Hr].
-    + destruct n as [|n].
-      * destruct ph; injection Hl as <-; simpl; auto.
-      * destruct ph; destruct rp; simpl in Hl; try destruct (p_st m); injection Hl as <-; simpl; auto.
-  - unfold arrive in Hl; simpl in Hl.
-    destruct (terminated pc); [discriminate|].
-    destruct (sig =? SIGTERM).
-    + injection Hl as <-. destruct (term_handled pc); simpl; auto.
-    + destruct (sig =? SIGALRM); [|discriminate]. destruct ar; [|discriminate].
-      injection Hl as <-. simpl; auto.
-  - unfold exit_member in Hl; simpl in Hl. destruct i as [|j].
-    + destruct (self_exit m) as [m'|] eqn:E; [|discriminate]. injection Hl as <-. simpl.
-      split; [now apply (self_exit_ok _ _ E)|exact Hr].
-    + destruct (nth_error r j) as [p|] eqn:En; [|discriminate].
-      destruct (self_exit p) as [p'|] eqn:E; [|discriminate]. injection Hl as <-. simpl.
-      split; [exact Hm|]. apply Forall_update; [exact Hr|now apply (self_exit_ok _ _ E)].
+  destruct s as [pc g st tmo ar m r rp k ev lt up sl]. unfold procs_ok; simpl. intros [Hm Hr] Hl.
+  destruct l as [|sig|i|]; simpl in Hl.
+  - unfold rstep, main_zombie in Hl; simpl in Hl. split_step Hl; simpl; auto.
+    all: split; [now apply deliver_ok|apply Forall_map_deliver; [intros; now apply deliver_ok|exact Hr]].
+  - unfold arrive in Hl; simpl in Hl. split_step Hl; simpl; auto.
+  - unfold exit_member in Hl; simpl in Hl. split_step Hl; simpl.
+    + split; [eapply self_exit_ok; eassumption|exact Hr].
+    + split; [exact Hm|]. apply Forall_update; [exact Hr|eapply self_exit_ok; eassumption].
+  - unfold group_up in Hl; simpl in Hl. split_step Hl; simpl; auto.
 Qed.
 
 Lemma members_step l s s' : apply_label l s = Some s' -> members_of s' = members_of s.
 Proof.
-  destruct s as [pc g st tmo ar m r rp k ev lt]. unfold members_of; simpl. intros Hl.
-  destruct l as [|sig|i]; simpl in Hl.
-  - unfold rstep, main_zombie in Hl; simpl in Hl.
-    destruct pc as [| | | | | | | |ph|ph n| |c|sg]; try discriminate;
-      try (injection Hl as <-; simpl; auto; fail).
-    + destruct rp; [discriminate|]. destruct (p_st m); [|discriminate]. injection Hl as <-. reflexivity.
-    + destruct (g =? 0); injection Hl as <-; reflexivity.
-    + injection Hl as <-. simpl. now rewrite deliver_member, map_deliver_member.
-    + destruct n as [|n].
-      * destruct ph; injection Hl as <-; reflexivity.
-      * destruct ph; destruct rp; simpl in Hl; try destruct (p_st m); injection Hl as <-; reflexivity.
-  - unfold arrive in Hl; simpl in Hl.
-    destruct (terminated pc); [discriminate|].
-    destruct (sig =? SIGTERM).
-    + injection Hl as <-. destruct (term_handled pc); reflexivity.
-    + destruct (sig =? SIGALRM); [|discriminate]. destruct ar; [|discriminate].
-      injection Hl as <-. reflexivity.
-  - unfold exit_member in Hl; simpl in Hl. destruct i as [|j].
-    + destruct (self_exit m) as [m'|] eqn:E; [|discriminate]. injection Hl as <-. simpl.
-      now rewrite (self_exit_member _ _ E).
-    + destruct (nth_error r j) as [p|] eqn:En; [|discriminate].
-      destruct (self_exit p) as [p'|] eqn:E; [|discriminate]. injection Hl as <-. simpl.
-      f_equal. apply (map_update member_of j p' p r En). apply (self_exit_member _ _ E).
+  destruct s as [pc g st tmo ar m r rp k ev lt up sl]. unfold members_of; simpl. intros Hl.
+  destruct l as [|sig|i|]; simpl in Hl.
+  - unfold rstep, main_zombie in Hl; simpl in Hl. split_step Hl; simpl; auto.
+    all: now rewrite deliver_member, map_deliver_member.
+  - unfold arrive in Hl; simpl in Hl. split_step Hl; simpl; auto.
+  - unfold exit_member in Hl; simpl in Hl. split_step Hl; simpl.
+    + erewrite self_exit_member by eassumption. reflexivity.
+    + f_equal. eapply map_update; [eassumption|]. eapply self_exit_member; eassumption.
+  - unfold group_up in Hl; simpl in Hl. split_step Hl; simpl; auto.
 Qed.
 
 Lemma members_exec tr s s' : exec tr s = Some s' -> members_of s' = members_of s.
@@ -405,142 +388,121 @@ Proof.
 Qed.
 
 (* gotsig is the last signal that arrived; signals are SIGTERM / SIGALRM; a signal counted as
-   "late" arrived after the main process had been reaped *)
+   "late" arrived after the main process had been reaped.  After a failed handshake the expiry
+   of the timeout is an event that no signal announces: gotsig then lags behind the history. *)
 Definition Ginv (s : state) : Prop :=
   (forall g, s_event s = Some g -> sigset g) /\
   (forall g, s_late s = Some g -> sigset g /\ s_reaped s = true) /\
-  match s_pc s with
-  | PKilled _ => True
-  | _ => match final_sig (history_of s) with Some g => s_gotsig s = g | None => s_gotsig s = 0 end
-  end.
+  ((s_slow s = true /\ s_event s <> None) \/
+   match s_pc s with
+   | PKilled _ => True
+   | _ => match final_sig (history_of s) with Some g => s_gotsig s = g | None => s_gotsig s = 0 end
+   end).
 
 Lemma Ginv_step l s s' : Ginv s -> apply_label l s = Some s' -> Ginv s'.
 Proof.
-  destruct s as [pc g st tmo ar m r rp k ev lt]. unfold Ginv, final_sig; simpl. intros (He & Hla & Hg) Hl.
-  destruct l as [|sig|i]; simpl in Hl.
+  destruct s as [pc g st tmo ar m r rp k ev lt up sl]. unfold Ginv, final_sig; simpl. intros (He & Hla & Hg) Hl.
+  assert (Hla' : forall x, lt = Some x -> sigset x /\ true = true).
+  { intros x Hx. split; [apply (Hla x Hx)|reflexivity]. }
+  destruct l as [|sig|i|]; simpl in Hl.
   - unfold rstep, main_zombie in Hl; simpl in Hl.
-    assert (Hla' : forall x, lt = Some x -> sigset x /\ true = true).
-    { intros x Hx. split; [apply (Hla x Hx)|reflexivity]. }
-    destruct pc as [| | | | | | | |ph|ph n| |c|sg]; try discriminate; simpl in Hg.
-    all: try (injection Hl as <-; simpl; split; [exact He|split; [exact Hla|exact Hg]]; fail).
-    + injection Hl as <-. simpl. split; [exact He|split; [exact Hla|]]. destruct (0 <? tmo); exact Hg.
-    + destruct rp; [discriminate|]. destruct (p_st m); [|discriminate]. injection Hl as <-. simpl; auto.
-    + destruct (g =? 0); injection Hl as <-; simpl; auto.
-    + destruct n as [|n].
-      * destruct ph; injection Hl as <-; simpl; auto.
-      * destruct ph; destruct rp; simpl in Hl; try destruct (p_st m); injection Hl as <-; simpl; auto.
+    split_step Hl; simpl in *; (split; [exact He|split; [first [exact Hla|exact Hla']|]]).
+    all: destruct Hg as [[Hs He']|Hg]; [left; split; [first [exact Hs|reflexivity]|exact He']|right; exact Hg].
   - unfold arrive in Hl; simpl in Hl.
-    assert (Hrec : sigset sig -> Ginv (record_sig sig (mkstate pc g st tmo ar m r rp k ev lt))).
+    assert (Hrec : sigset sig -> Ginv (record_sig sig (mkstate pc g st tmo ar m r rp k ev lt up sl))).
     { intros Hs. unfold Ginv, final_sig, record_sig; simpl. destruct rp; simpl.
       - split; [exact He|]. split; [intros x Hx; injection Hx as <-; auto|].
-        destruct pc; auto.
+        destruct Hg as [Hg|Hg]; [left; exact Hg|right]. destruct pc; auto.
       - split; [intros x Hx; injection Hx as <-; exact Hs|]. split; [exact Hla|].
         destruct lt as [x|]; [destruct (Hla x eq_refl) as [_ Hx]; discriminate|].
-        destruct pc; auto. }
+        right. destruct pc; auto. }
     destruct (terminated pc); [discriminate|].
     destruct (Z.eqb_spec sig SIGTERM) as [->|_].
     + injection Hl as <-. destruct (term_handled pc); [apply Hrec; now left|].
       unfold runner_killed; simpl. destruct rp; simpl.
-      * split; [exact He|]. split; [intros x Hx; injection Hx as <-; split; [now left|reflexivity]|exact I].
-      * split; [intros x Hx; injection Hx as <-; now left|]. split; [exact Hla|exact I].
-    + destruct (Z.eqb_spec sig SIGALRM) as [->|_]; [|discriminate]. destruct ar; [|discriminate].
-      injection Hl as <-. apply Hrec. now right.
-  - unfold exit_member in Hl; simpl in Hl. destruct i as [|j].
-    + destruct (self_exit m) as [m'|]; [|discriminate]. injection Hl as <-. simpl. auto.
-    + destruct (nth_error r j) as [p|]; [|discriminate].
-      destruct (self_exit p) as [p'|]; [|discriminate]. injection Hl as <-. simpl. auto.
+      * split; [exact He|]. split; [intros x Hx; injection Hx as <-; split; [now left|reflexivity]|right; exact I].
+      * split; [intros x Hx; injection Hx as <-; now left|]. split; [exact Hla|right; exact I].
+    + destruct (Z.eqb_spec sig SIGALRM) as [->|_]; [|discriminate]. destruct ar.
+      * injection Hl as <-. apply Hrec. now right.
+      * destruct sl; simpl in Hl; [|discriminate]. destruct rp; simpl in Hl; [discriminate|].
+        destruct (0 <? tmo); [|discriminate]. injection Hl as <-. simpl.
+        split; [intros x Hx; injection Hx as <-; now right|]. split; [exact Hla|].
+        left. split; [reflexivity|discriminate].
+  - unfold exit_member in Hl; simpl in Hl. split_step Hl; simpl; auto.
+  - unfold group_up in Hl; simpl in Hl. split_step Hl; simpl; auto.
 Qed.
 
-(* before the runner is in its kill phase it has reaped nobody and sent nothing *)
+(* before the runner is in its kill phase it has reaped nobody and sent nothing; the handshake
+   has failed exactly on the "process group failure" path *)
 Definition PInv (s : state) : Prop :=
   match s_pc s with
-  | PForked | PIgnPipe | PTermInst | PGroupUp | PAlrmInst | PBeforeWait | PWaiting =>
-      s_reaped s = false /\ s_kills s = []
+  | PForked | PIgnPipe | PTermInst | PHandshake _ | PGroupUp | PAlrmInst | PBeforeWait | PWaiting =>
+      s_reaped s = false /\ s_kills s = [] /\ s_slow s = false
+  | PGroupFail | PFailWaiting | PFailIntr =>
+      s_reaped s = false /\ s_kills s = [] /\ s_slow s = true
+  | PFailDone => s_kills s = [] /\ s_slow s = true
+  | PWaitIntr | PKillSend _ | PPoll _ _ | PWaitDone => s_slow s = false
   | _ => True
   end.
 
 Lemma PInv_step l s s' : PInv s -> apply_label l s = Some s' -> PInv s'.
 Proof.
-  destruct s as [pc g st tmo ar m r rp k ev lt]. unfold PInv; simpl. intros H Hl.
-  destruct l as [|sig|i]; simpl in Hl.
-  - unfold rstep, main_zombie in Hl; simpl in Hl.
-    destruct pc as [| | | | | | | |ph|ph n| |c|sg]; try discriminate;
-      try (injection Hl as <-; simpl; auto; fail).
-    + injection Hl as <-. simpl. destruct (0 <? tmo); exact H.
-    + destruct rp; [discriminate|]. destruct (p_st m); [|discriminate]. injection Hl as <-. exact I.
-    + destruct (g =? 0); injection Hl as <-; exact I.
-    + destruct n as [|n].
-      * destruct ph; injection Hl as <-; exact I.
-      * destruct ph; destruct rp; simpl in Hl; try destruct (p_st m); injection Hl as <-; exact I.
-  - unfold arrive in Hl; simpl in Hl.
-    destruct (terminated pc) eqn:Et; [discriminate|].
-    destruct (sig =? SIGTERM).
-    + injection Hl as <-. destruct (term_handled pc) eqn:Eh; simpl; [|exact I].
-      destruct pc; try exact H; exact I.
-    + destruct (sig =? SIGALRM); [|discriminate]. destruct ar; [|discriminate].
-      injection Hl as <-. simpl. destruct pc; try exact H; exact I.
-  - unfold exit_member in Hl; simpl in Hl. destruct i as [|j].
-    + destruct (self_exit m) as [m'|]; [|discriminate]. injection Hl as <-. exact H.
-    + destruct (nth_error r j) as [p|]; [|discriminate].
-      destruct (self_exit p) as [p'|]; [|discriminate]. injection Hl as <-. exact H.
+  destruct s as [pc g st tmo ar m r rp k ev lt up sl]. unfold PInv; simpl. intros H Hl.
+  destruct l as [|sig|i|]; simpl in Hl.
+  - unfold rstep, main_zombie in Hl; simpl in Hl. split_step Hl; simpl in *; try exact I; try exact H;
+      try (destruct H as (H1 & H2 & H3); auto; fail).
+  - unfold arrive in Hl; simpl in Hl. split_step Hl; simpl in *; try exact I; try exact H;
+      try discriminate.
+    all: destruct pc; simpl in *; try exact I; try exact H; try discriminate; apply H.
+  - unfold exit_member in Hl; simpl in Hl. split_step Hl; simpl; exact H.
+  - unfold group_up in Hl; simpl in Hl. split_step Hl; simpl; exact H.
 Qed.
 
-(* as long as no signal has reached the runner while the step was running *)
+(* the status the runner reports for a main process it has reaped *)
+Definition exit_code_ok (s : state) (c : Z) : Prop :=
+  if s_slow s
+  then c = (if exitstatus (s_status s) 0 =? 0 then 1 else exitstatus (s_status s) 0)
+  else c = exitstatus (s_status s) (s_gotsig s).
+
+(* as long as no event has happened while the step was running *)
 Definition QInv (s : state) : Prop :=
   s_event s = None ->
   s_kills s = [] /\ quiet_ok (s_main s) /\ Forall quiet_ok (s_rest s) /\
   match s_pc s with
-  | PForked | PIgnPipe | PTermInst | PGroupUp | PAlrmInst | PBeforeWait | PWaiting => s_reaped s = false
-  | PWaitDone => s_reaped s = true /\ p_st (s_main s) = Some (s_status s)
-  | PExit c => s_reaped s = true /\ p_st (s_main s) = Some (s_status s) /\
-               c = exitstatus (s_status s) (s_gotsig s)
+  | PForked | PIgnPipe | PTermInst | PHandshake _ | PGroupUp | PAlrmInst | PBeforeWait | PWaiting
+  | PGroupFail | PFailWaiting => s_reaped s = false
+  | PWaitDone | PFailDone => s_reaped s = true /\ p_st (s_main s) = Some (s_status s)
+  | PExit c => s_reaped s = true /\ p_st (s_main s) = Some (s_status s) /\ exit_code_ok s c
   | _ => False
   end.
 
-Lemma QInv_step l s s' : QInv s -> apply_label l s = Some s' -> QInv s'.
+Lemma QInv_step l s s' : PInv s -> QInv s -> apply_label l s = Some s' -> QInv s'.
 Proof.
-  destruct s as [pc g st tmo ar m r rp k ev lt]. unfold QInv; simpl. intros H Hl.
-  destruct l as [|sig|i]; simpl in Hl.
+  destruct s as [pc g st tmo ar m r rp k ev lt up sl]. unfold PInv, QInv, exit_code_ok; simpl. intros HP H Hl.
+  destruct l as [|sig|i|]; simpl in Hl.
   - unfold rstep, main_zombie in Hl; simpl in Hl.
-    destruct pc as [| | | | | | | |ph|ph n| |c|sg]; try discriminate;
-      try (injection Hl as <-; simpl; intros Hev; destruct (H Hev) as (Hk & Hm & Hr & Hp);
-           try contradiction; repeat split; auto; fail).
-    + injection Hl as <-. simpl. intros Hev. destruct (H Hev) as (Hk & Hm & Hr & Hp).
-      repeat split; auto. destruct (0 <? tmo); exact Hp.
-    + destruct rp; [discriminate|]. destruct (p_st m) eqn:E; [|discriminate]. injection Hl as <-.
-      simpl. intros Hev. destruct (H Hev) as (Hk & Hm & Hr & Hp). repeat split; auto.
-    + destruct (g =? 0); injection Hl as <-; simpl; intros Hev; destruct (H Hev) as (_ & _ & _ & []).
-    + destruct n as [|n].
-      * destruct ph; injection Hl as <-; simpl; intros Hev; destruct (H Hev) as (_ & _ & _ & []).
-      * destruct ph; destruct rp; simpl in Hl; try destruct (p_st m); injection Hl as <-; simpl; intros Hev;
-          destruct (H Hev) as (_ & _ & _ & []).
-    + injection Hl as <-. simpl. intros Hev. destruct (H Hev) as (Hk & Hm & Hr & Hp & Hs).
-      repeat split; auto.
+    split_step Hl; simpl in *; intros Hev; destruct (H Hev) as (Hk & Hm & Hr & Hp);
+      try contradiction; repeat split; auto; try apply Hp; try congruence.
+    all: try (destruct HP as (_ & _ & ->); reflexivity).
+    all: try (destruct HP as (_ & ->); reflexivity).
+    all: try (subst sl; reflexivity).
+    all: try (subst rp; assumption).
+    all: destruct HP as (_ & ->); match goal with E : (_ =? 0) = _ |- _ => rewrite E end; reflexivity.
   - unfold arrive in Hl; simpl in Hl.
-    destruct (terminated pc) eqn:Et; [discriminate|].
-    assert (Hrec : QInv (record_sig sig (mkstate pc g st tmo ar m r rp k ev lt))).
-    { unfold QInv, record_sig; simpl. intros Hev. destruct rp; [|discriminate].
+    split_step Hl; simpl in *; intros Hev; try discriminate.
+    all: destruct rp; try discriminate; destruct (H Hev) as (Hk & Hm & Hr & Hp);
+      destruct pc; simpl in *; try discriminate; try contradiction; repeat split; auto; apply Hp.
+  - unfold exit_member in Hl; simpl in Hl. split_step Hl; simpl in *; intros Hev;
       destruct (H Hev) as (Hk & Hm & Hr & Hp).
-      destruct pc; try discriminate Hp; try contradiction; try discriminate Et.
-      repeat split; auto; apply Hp. }
-    destruct (sig =? SIGTERM).
-    + injection Hl as <-. destruct (term_handled pc) eqn:Eh; [exact Hrec|].
-      unfold QInv, runner_killed; simpl. intros Hev. destruct rp; [|discriminate].
-      destruct (H Hev) as (_ & _ & _ & Hp). destruct pc; try discriminate Eh; discriminate Hp.
-    + destruct (sig =? SIGALRM); [|discriminate]. destruct ar; [|discriminate].
-      injection Hl as <-. exact Hrec.
-  - unfold exit_member in Hl; simpl in Hl. destruct i as [|j].
-    + destruct (self_exit m) as [m'|] eqn:E; [|discriminate]. injection Hl as <-. simpl.
-      intros Hev. destruct (H Hev) as (Hk & Hm & Hr & Hp).
-      destruct (self_exit_alive _ _ E) as [Ha _].
-      repeat split; auto; [now apply (self_exit_quiet _ _ E)|].
+    + match goal with E : self_exit m = Some _ |- _ =>
+        destruct (self_exit_alive _ _ E) as [Ha _]; pose proof (self_exit_quiet _ _ E) as Hq end.
+      repeat split; auto.
       destruct pc; try exact Hp.
       * destruct Hp as (_ & Hst). rewrite Ha in Hst. discriminate.
       * destruct Hp as (_ & Hst & _). rewrite Ha in Hst. discriminate.
-    + destruct (nth_error r j) as [p|] eqn:En; [|discriminate].
-      destruct (self_exit p) as [p'|] eqn:E; [|discriminate]. injection Hl as <-. simpl.
-      intros Hev. destruct (H Hev) as (Hk & Hm & Hr & Hp).
-      repeat split; auto. apply Forall_update; [exact Hr|now apply (self_exit_quiet _ _ E)].
+      * destruct Hp as (_ & Hst). rewrite Ha in Hst. discriminate.
+    + repeat split; auto. apply Forall_update; [exact Hr|eapply self_exit_quiet; eassumption].
+  - unfold group_up in Hl; simpl in Hl. split_step Hl; simpl in *. exact H.
 Qed.
 
 (* ---- the initial state ------------------------------------------------------------------------------------ *)
@@ -618,9 +580,10 @@ Lemma cut_from_KInv s c :
   KInv s -> procs_ok s -> Ginv s -> s_pc s = PExit c ->
   cut_ok (members_of s) (history_of s) (observe s).
 Proof.
-  destruct s as [pc g st tmo ar m r rp k ev lt].
+  destruct s as [pc g st tmo ar m r rp k ev lt up sl].
   unfold KInv, procs_ok, Ginv, cut_ok, members_of, history_of, observe, final_sig; simpl.
-  intros (Hg & Hev & H) (Hpm & Hpr) (_ & _ & Hfin) ->.
+  intros (Hg & Hev & Hsl & H) (Hpm & Hpr) (_ & _ & Hfin) ->. subst sl.
+  destruct Hfin as [[Hs _]|Hfin]; [discriminate|].
   unfold done_inv, grp_ddead, grp_dead in H. simpl in H.
   destruct H as ((Hr & Hst & (Hdm & Hdr) & Hk) & Hc). subst rp.
   split; [now rewrite !map_length|].
@@ -647,9 +610,10 @@ Lemma uncut_from_QInv s :
   QInv s -> Ginv s -> s_event s = None ->
   uncut_ok (members_of s) (history_of s) (observe s).
 Proof.
-  destruct s as [pc g st tmo ar m r rp k ev lt].
-  unfold QInv, Ginv, uncut_ok, members_of, history_of, observe, final_sig; simpl.
+  destruct s as [pc g st tmo ar m r rp k ev lt up sl].
+  unfold QInv, Ginv, uncut_ok, exit_code_ok, members_of, history_of, observe, final_sig; simpl.
   intros H (_ & Hla & Hfin) ->. destruct (H eq_refl) as (Hk & Hqm & Hqr & Hp). clear H.
+  destruct Hfin as [[_ Hx]|Hfin]; [contradiction|].
   split; [now rewrite !map_length|]. split; [exact Hk|].
   split; [intros sg; destruct pc; try discriminate; contradiction|].
   split.
@@ -659,6 +623,10 @@ Proof.
     unfold quiet_ok in Hqm. rewrite Hst in Hqm. destruct Hqm as (Hself & kk & Hearly & Hw).
     exists (member_of m), (map member_of r), kk. simpl.
     split; [reflexivity|]. split; [exact Hearly|]. split; [exact Hself|].
+    destruct sl.
+    { rewrite Hw in Hcode. rewrite exitstatus_exited in Hcode by discriminate.
+      destruct (Z.eqb_spec (kk mod 256) 0) as [Hz|Hnz]; subst c; [split; [discriminate|contradiction]|].
+      split; [exact Hnz|reflexivity]. }
     simpl in Hfin. destruct lt as [x|].
     + destruct (Hla x eq_refl) as [[-> | ->] _]; subst g.
       * left. split; [discriminate|]. rewrite Hcode, Hw. now apply exitstatus_exited.
@@ -671,8 +639,8 @@ Qed.
 Lemma arrive_waiting_KInv sig s s1 :
   PInv s -> s_pc s = PWaiting -> arrive sig s = Some s1 -> KInv s1.
 Proof.
-  destruct s as [pc g st tmo ar m r rp k ev lt]. unfold PInv, arrive; simpl. intros H ->. simpl.
-  destruct H as [-> ->].
+  destruct s as [pc g st tmo ar m r rp k ev lt up sl]. unfold PInv, arrive; simpl. intros H ->. simpl.
+  destruct H as (-> & -> & ->).
   destruct (Z.eqb_spec sig SIGTERM) as [->|_].
   - intros Hs. injection Hs as <-. unfold KInv; simpl. repeat split; auto; [now left|discriminate].
   - destruct (Z.eqb_spec sig SIGALRM) as [->|_]; [|discriminate]. destruct ar; [|discriminate].
@@ -684,7 +652,7 @@ Proof. apply (exec_inv KInv KInv_step). Qed.
 
 Lemma KInv_terminated s : KInv s -> terminated (s_pc s) = true -> exists c, s_pc s = PExit c.
 Proof.
-  unfold KInv. intros (_ & _ & H) Ht. destruct (s_pc s); try discriminate; [eauto|contradiction].
+  unfold KInv. intros (_ & _ & _ & H) Ht. destruct (s_pc s); try discriminate; [eauto|contradiction].
 Qed.
 
 Lemma killed_from_waiting t timeout tr1 s sig s1 tr2 s' :
@@ -722,19 +690,11 @@ Lemma quiet_step l s s' :
   is_arrival l = false -> apply_label l s = Some s' ->
   s_event s' = s_event s /\ s_late s' = s_late s /\ s_gotsig s' = s_gotsig s.
 Proof.
-  destruct s as [pc g st tmo ar m r rp k ev lt]. intros Hl H. destruct l as [|sig|i]; [|discriminate|]; simpl in H.
-  - unfold rstep, main_zombie in H; simpl in H.
-    destruct pc as [| | | | | | | |ph|ph n| |c|sg]; try discriminate;
-      try (injection H as <-; simpl; auto; fail).
-    + destruct rp; [discriminate|]. destruct (p_st m); [|discriminate]. injection H as <-. simpl; auto.
-    + destruct (g =? 0); injection H as <-; simpl; auto.
-    + destruct n as [|n].
-      * destruct ph; injection H as <-; simpl; auto.
-      * destruct ph; destruct rp; simpl in H; try destruct (p_st m); injection H as <-; simpl; auto.
-  - unfold exit_member in H; simpl in H. destruct i as [|j].
-    + destruct (self_exit m) as [m'|]; [|discriminate]. injection H as <-. simpl; auto.
-    + destruct (nth_error r j) as [p|]; [|discriminate].
-      destruct (self_exit p) as [p'|]; [|discriminate]. injection H as <-. simpl; auto.
+  destruct s as [pc g st tmo ar m r rp k ev lt up sl]. intros Hl H.
+  destruct l as [|sig|i|]; [|discriminate| |]; simpl in H.
+  - unfold rstep, main_zombie in H; simpl in H. split_step H; simpl; auto.
+  - unfold exit_member in H; simpl in H. split_step H; simpl; auto.
+  - unfold group_up in H; simpl in H. split_step H; simpl; auto.
 Qed.
 
 Lemma quiet_exec tr s s' :
@@ -758,40 +718,16 @@ Proof.
   split; [exact E1|]. split; [exact E2|]. apply (no_event_no_cut t timeout tr); assumption.
 Qed.
 
-(* ---- every arrival point: what can be saved ------------------------------------------------------------------------ *)
-
-Definition pre_wait (p : pc) : bool :=
-  match p with
-  | PForked | PIgnPipe | PTermInst | PGroupUp | PAlrmInst | PBeforeWait => true
-  | _ => false
-  end.
-
-(* the first signal of the schedule (if any) does not reach the runner before it has entered waitpid *)
-Fixpoint guarded (tr : list label) (s : state) : bool :=
-  match tr with
-  | [] => true
-  | l :: tr' =>
-      if is_arrival l then negb (pre_wait (s_pc s))
-      else match apply_label l s with Some s' => guarded tr' s' | None => true end
-  end.
+(* ---- once the main process has been reaped nothing is an event any more ---------------------------------- *)
 
 Lemma reaped_step l s s' :
   s_reaped s = true -> apply_label l s = Some s' -> s_reaped s' = true /\ s_event s' = s_event s.
 Proof.
-  destruct s as [pc g st tmo ar m r rp k ev lt]. simpl. intros -> H. destruct l as [|sig|i]; simpl in H.
-  - unfold rstep, main_zombie in H; simpl in H.
-    destruct pc as [| | | | | | | |ph|ph n| |c|sg]; try discriminate;
-      try (injection H as <-; simpl; auto; fail).
-    + destruct (g =? 0); injection H as <-; simpl; auto.
-    + destruct n as [|n]; destruct ph; injection H as <-; simpl; auto.
-  - unfold arrive in H; simpl in H. destruct (terminated pc); [discriminate|].
-    destruct (sig =? SIGTERM).
-    + injection H as <-. destruct (term_handled pc); simpl; auto.
-    + destruct (sig =? SIGALRM); [|discriminate]. destruct ar; [|discriminate]. injection H as <-. simpl; auto.
-  - unfold exit_member in H; simpl in H. destruct i as [|j].
-    + destruct (self_exit m) as [m'|]; [|discriminate]. injection H as <-. simpl; auto.
-    + destruct (nth_error r j) as [p|]; [|discriminate].
-      destruct (self_exit p) as [p'|]; [|discriminate]. injection H as <-. simpl; auto.
+  destruct s as [pc g st tmo ar m r rp k ev lt up sl]. simpl. intros -> H. destruct l as [|sig|i|]; simpl in H.
+  - unfold rstep, main_zombie in H; simpl in H. split_step H; simpl; auto.
+  - unfold arrive in H; simpl in H. rewrite andb_false_r in H. simpl in H. split_step H; simpl; auto.
+  - unfold exit_member in H; simpl in H. split_step H; simpl; auto.
+  - unfold group_up in H; simpl in H. split_step H; simpl; auto.
 Qed.
 
 Lemma reaped_exec tr s s' :
@@ -801,134 +737,6 @@ Proof.
   - now injection H as <-.
   - destruct (apply_label l s) as [s1|] eqn:E; [|discriminate].
     destruct (reaped_step l s s1 Hr E) as [Hr1 He1]. rewrite (IH s1 Hr1 H). exact He1.
-Qed.
-
-Lemma guarded_cut tr : forall s0 s',
-  Inv s0 -> s_event s0 = None -> exec tr s0 = Some s' -> guarded tr s0 = true ->
-  s_event s' <> None -> terminated (s_pc s') = true ->
-  cut_ok (members_of s0) (history_of s') (observe s').
-Proof.
-  induction tr as [|l tr IH]; simpl; intros s0 s' Hi He0 Hx Hgd Hev Ht.
-  - injection Hx as <-. contradiction.
-  - destruct (apply_label l s0) as [s1|] eqn:E; [|discriminate].
-    assert (Hi1 : Inv s1) by (apply (Inv_step l s0); assumption).
-    destruct (is_arrival l) eqn:Ea.
-    + destruct l as [|sig|i]; try discriminate. simpl in E.
-      destruct Hi as (Hpo & Hgi & Hpi & Hqi).
-      destruct (Hqi He0) as (_ & _ & _ & Hpc).
-      destruct (s_pc s0) eqn:Epc; try discriminate Hgd; try contradiction.
-      * (* blocked in waitpid *)
-        assert (Hk1 : KInv s1) by (apply (arrive_waiting_KInv sig s0); assumption).
-        assert (Hk' : KInv s') by (apply (KInv_exec tr s1); assumption).
-        assert (Hi' : Inv s') by (apply (Inv_exec tr s1); assumption).
-        destruct (KInv_terminated s' Hk' Ht) as [c Hc].
-        rewrite <- (members_step (LArrive sig) s0 s1 E). rewrite <- (members_exec tr _ _ Hx).
-        apply (cut_from_KInv s' c); [exact Hk'|apply Hi'|apply Hi'|exact Hc].
-      * (* the main process has been reaped: the signal is late *)
-        destruct Hpc as [Hr _].
-        destruct (reaped_step (LArrive sig) s0 s1 Hr E) as [Hr1 He1].
-        exfalso. apply Hev. rewrite (reaped_exec tr s1 s' Hr1 Hx), He1. exact He0.
-      * unfold arrive in E. rewrite Epc in E. discriminate.
-    + destruct (quiet_step l s0 s1 Ea E) as (He1 & _ & _).
-      rewrite <- (members_step l s0 s1 E).
-      apply (IH s1 s'); auto. now rewrite He1.
-Qed.
-
-Lemma all_points_partial t timeout tr s' :
-  exec tr (init_tree t timeout) = Some s' -> guarded tr (init_tree t timeout) = true ->
-  terminated (s_pc s') = true -> spec (flatten t) (history_of s') (observe s').
-Proof.
-  intros Hx Hg Ht. unfold spec. simpl.
-  destruct (s_event s') as [e|] eqn:Ee.
-  - rewrite <- (members_init_tree t timeout).
-    apply (guarded_cut tr); auto; [apply Inv_init|congruence].
-  - now apply (no_event_no_cut t timeout tr).
-Qed.
-
-(* ---- the kill phase ends, whatever the environment does ---------------------------------------------------------------- *)
-
-Definition kill_phase (p : pc) : bool :=
-  match p with PWaitIntr | PKillSend _ | PPoll _ _ | PWaitDone => true | _ => false end.
-
-Definition kmeasure (p : pc) : nat :=
-  match p with
-  | PWaitIntr => 2 * npolls + 6
-  | PKillSend PhTerm => 2 * npolls + 5
-  | PPoll PhTerm n => npolls + n + 4
-  | PKillSend PhKill => npolls + 3
-  | PPoll PhKill n => n + 2
-  | PWaitDone => 1
-  | _ => 0
-  end.
-
-Lemma kill_phase_progress s :
-  kill_phase (s_pc s) = true ->
-  exists s', rstep s = Some s' /\ (kmeasure (s_pc s') < kmeasure (s_pc s))%nat /\
-             (kill_phase (s_pc s') = true \/ exists c, s_pc s' = PExit c).
-Proof.
-  destruct s as [pc g st tmo ar m r rp k ev lt].
-  cbn [s_pc]. intros Hk.
-  assert (Hgen : forall N,
-    exists s', match pc with
-               | PWaitIntr =>
-                   if g =? 0 then Some (set_pc (PExit 1) (mkstate pc g st tmo ar m r rp k ev lt))
-                   else Some (set_pc (PKillSend PhTerm) (mkstate pc g st tmo ar m r rp k ev lt))
-               | PKillSend ph => Some (set_pc (PPoll ph N) (kill_group (phase_sig ph) (mkstate pc g st tmo ar m r rp k ev lt)))
-               | PPoll ph (S n) =>
-                   match (if rp then None else p_st m) with
-                   | Some w => Some (reap w (mkstate pc g st tmo ar m r rp k ev lt))
-                   | None => Some (set_pc (PPoll ph n) (mkstate pc g st tmo ar m r rp k ev lt))
-                   end
-               | PPoll PhTerm O => Some (set_pc (PKillSend PhKill) (mkstate pc g st tmo ar m r rp k ev lt))
-               | PPoll PhKill O => Some (mkstate PWaitDone g 1 tmo ar m r rp k ev lt)
-               | PWaitDone => Some (set_pc (PExit (exitstatus st g)) (mkstate pc g st tmo ar m r rp k ev lt))
-               | _ => None
-               end = Some s' /\
-      (match s_pc s' with
-       | PWaitIntr => 2 * N + 6 | PKillSend PhTerm => 2 * N + 5 | PPoll PhTerm n => N + n + 4
-       | PKillSend PhKill => N + 3 | PPoll PhKill n => n + 2 | PWaitDone => 1 | _ => 0 end <
-       match pc with
-       | PWaitIntr => 2 * N + 6 | PKillSend PhTerm => 2 * N + 5 | PPoll PhTerm n => N + n + 4
-       | PKillSend PhKill => N + 3 | PPoll PhKill n => n + 2 | PWaitDone => 1 | _ => 0 end)%nat /\
-      (kill_phase (s_pc s') = true \/ exists c, s_pc s' = PExit c)).
-  { intros N. destruct pc as [| | | | | | | |ph|ph n| |c|sg]; try discriminate.
-    - destruct (g =? 0); eexists; (split; [reflexivity|]); cbn; split; try lia; eauto.
-    - destruct ph; eexists; (split; [reflexivity|]); cbn; split; try lia; eauto.
-    - destruct n as [|n].
-      + destruct ph; eexists; (split; [reflexivity|]); cbn; split; try lia; eauto.
-      + destruct ph; destruct rp; cbn; try destruct (p_st m); eexists; (split; [reflexivity|]);
-          cbn; split; try lia; eauto.
-    - eexists. split; [reflexivity|]. cbn. split; [lia|eauto]. }
-  destruct (Hgen npolls) as (s' & H1 & H2 & H3). exists s'.
-  split; [|split; [exact H2|exact H3]].
-  rewrite <- H1. unfold rstep, main_zombie. cbn [s_pc s_gotsig s_reaped s_main s_status].
-  destruct pc as [| | | | | | | |ph|ph n| |c|sg]; try discriminate; reflexivity.
-Qed.
-
-Lemma kill_phase_env l s s' :
-  is_arrival l = true \/ (exists i, l = LExit i) ->
-  kill_phase (s_pc s) = true -> apply_label l s = Some s' -> s_pc s' = s_pc s.
-Proof.
-  destruct s as [pc g st tmo ar m r rp k ev lt]. simpl. intros Hl Hk H.
-  destruct l as [|sig|i]; simpl in H.
-  - destruct Hl as [Hl|[i Hl]]; discriminate.
-  - unfold arrive in H; simpl in H. destruct (terminated pc); [discriminate|].
-    destruct (sig =? SIGTERM).
-    + injection H as <-. destruct pc; try discriminate Hk; reflexivity.
-    + destruct (sig =? SIGALRM); [|discriminate]. destruct ar; [|discriminate]. injection H as <-.
-      destruct pc; try discriminate Hk; reflexivity.
-  - unfold exit_member in H; simpl in H. destruct i as [|j].
-    + destruct (self_exit m) as [m'|]; [|discriminate]. injection H as <-. reflexivity.
-    + destruct (nth_error r j) as [p|]; [|discriminate].
-      destruct (self_exit p) as [p'|]; [|discriminate]. injection H as <-. reflexivity.
-Qed.
-
-Lemma kmeasure_bound p : (kmeasure p <= 2 * npolls + 6 \/ exists ph n, p = PPoll ph n /\ (npolls < n)%nat)%nat.
-Proof.
-  unfold kmeasure. generalize npolls as N. intros N.
-  destruct p as [| | | | | | | |ph|ph n| |c|sg]; try (left; lia).
-  - destruct ph; left; lia.
-  - destruct (Nat.le_gt_cases n N); [left; destruct ph; lia|right; eauto].
 Qed.
 
 (* ---- the script interpreter only produces reachable states ----------------------------------------------------------------- *)
@@ -955,7 +763,7 @@ Proof.
             exists tr, exec tr s = Some (i_state (let (s', o) := run_until stop run_fuel s in k s' o))).
   { intros stop k Hk. destruct (run_until_reachable stop run_fuel s) as [n Hn].
     exists (repeat LRun n). rewrite Hn. destruct (run_until stop run_fuel s) as [s' o]. simpl. now rewrite Hk. }
-  destruct a as [p| |sig|i|]; simpl.
+  destruct a as [p| |sig|i| | | |]; simpl.
   - destruct md; try (apply Hrun; reflexivity).
     + destruct (at_point p s); [exists []; reflexivity|apply Hrun; reflexivity].
     + exists []; reflexivity.
@@ -965,120 +773,29 @@ Proof.
   - destruct (exit_member i s) as [s'|] eqn:E; [|exists []; reflexivity].
     exists [LExit i]. simpl. rewrite E. destruct md; reflexivity.
   - apply Hrun; reflexivity.
+  - exists []; reflexivity.
+  - destruct (group_up s) as [s'|] eqn:E; [|exists []; reflexivity].
+    exists [LUp]. simpl. rewrite E. destruct md; reflexivity.
+  - destruct md; try (exists []; reflexivity);
+      (destruct (arrive SIGALRM s) as [s'|] eqn:E; [exists [LArrive SIGALRM]; simpl; now rewrite E|exists []; reflexivity]).
 Qed.
 
 Lemma interp_reachable script s : exists tr, exec tr s = Some (i_state (interp script s)).
 Proof.
-  unfold interp.
-  assert (H : forall st, exists tr, exec tr (i_state st) =
+  assert (H : forall script st, exists tr, exec tr (i_state st) =
                 Some (i_state (fold_left (fun st a => interp1 a st) script st))).
-  { induction script as [|a script IH]; intros st; simpl.
+  { clear. induction script as [|a script IH]; intros st; simpl.
     - exists []. reflexivity.
     - destruct (interp1_reachable a st) as [tr1 H1]. destruct (IH (interp1 a st)) as [tr2 H2].
       exists (tr1 ++ tr2). rewrite (exec_app tr1 tr2 _ _ H1). exact H2. }
-  apply (H (mkistate s Free [] false)).
-Qed.
-
-(* ---- the windows: concrete executions of the faithful model that violate the property -------------------------------------- *)
-
-Definition two_procs : tree := Node Default None [Node Default None []].
-Definition two_procs_main_exits : tree := Node Default (Some 0) [Node Default None []].
-
-(* W1: SIGTERM between fork() and siginstall(SIGTERM): the runner dies, the step lives on *)
-Lemma window_before_handler :
-  exists s', exec [LArrive SIGTERM] (init_tree two_procs 0) = Some s' /\
-    observe s' = mkobs (RKilled SIGTERM) MAlive [true; true] [] /\
-    h_event (history_of s') = Some SIGTERM /\
-    terminated (s_pc s') = true /\
-    ~ spec (flatten two_procs) (history_of s') (observe s').
-Proof.
-  eexists. split; [vm_compute; reflexivity|]. split; [reflexivity|]. split; [reflexivity|].
-  split; [reflexivity|]. unfold spec. simpl. intros [_ (c & Hc & _)]. discriminate.
-Qed.
-
-Lemma window_after_sigpipe :
-  exists s', exec [LRun; LArrive SIGTERM] (init_tree two_procs 0) = Some s' /\
-    observe s' = mkobs (RKilled SIGTERM) MAlive [true; true] [] /\
-    terminated (s_pc s') = true /\
-    ~ spec (flatten two_procs) (history_of s') (observe s').
-Proof.
-  eexists. split; [vm_compute; reflexivity|]. split; [reflexivity|]. split; [reflexivity|].
-  unfold spec. simpl. intros [_ (c & Hc & _)]. discriminate.
-Qed.
-
-(* W2: SIGTERM after siginstall(SIGTERM) but before waitpid is entered: gotsig is set, nothing is
-   killed; the runner returns when the step ends by itself - here with status 0 and a default
-   disposition member still alive *)
-Definition lost_term_schedule : list label :=
-  [LRun; LRun; LRun; LRun; LArrive SIGTERM; LRun; LExit 0; LRun; LRun].
-
-Lemma window_before_waitpid :
-  exists s', exec lost_term_schedule (init_tree two_procs_main_exits 0) = Some s' /\
-    observe s' = mkobs (RExit 0) MReaped [false; true] [] /\
-    h_event (history_of s') = Some SIGTERM /\
-    terminated (s_pc s') = true /\
-    ~ spec (flatten two_procs_main_exits) (history_of s') (observe s').
-Proof.
-  eexists. split; [vm_compute; reflexivity|]. split; [reflexivity|]. split; [reflexivity|].
-  split; [reflexivity|]. unfold spec. simpl.
-  intros [_ (c & _ & _ & _ & [Hk|(Hk & _)] & _)]; discriminate.
-Qed.
-
-(* the same with the handler just installed (exec.after_sigterm) *)
-Lemma window_after_sigterm :
-  exists s', exec [LRun; LRun; LArrive SIGTERM; LRun; LRun; LRun; LExit 0; LRun; LRun]
-               (init_tree two_procs_main_exits 0) = Some s' /\
-    observe s' = mkobs (RExit 0) MReaped [false; true] [] /\
-    terminated (s_pc s') = true /\
-    ~ spec (flatten two_procs_main_exits) (history_of s') (observe s').
-Proof.
-  eexists. split; [vm_compute; reflexivity|]. split; [reflexivity|]. split; [reflexivity|].
-  unfold spec. simpl. intros [_ (c & _ & _ & _ & [Hk|(Hk & _)] & _)]; discriminate.
-Qed.
-
-(* W2 for the alarm: it expires after alarm() but before waitpid is entered; the runner then
-   blocks in waitpid with the timeout recorded and nothing - short of a further signal - will
-   ever make it move: the timeout is lost *)
-Definition lost_alarm_schedule : list label := [LRun; LRun; LRun; LRun; LRun; LArrive SIGALRM; LRun].
-
-Lemma window_lost_alarm :
-  exists s, exec lost_alarm_schedule (init_tree two_procs 1) = Some s /\
-    s_pc s = PWaiting /\ s_event s = Some SIGALRM /\ s_gotsig s = SIGALRM /\ s_kills s = [] /\
-    observe s = mkobs RHang MAlive [true; true] [] /\
-    forall tr s', no_arrival tr = true -> exec tr s = Some s' -> s' = s.
-Proof.
-  eexists. split; [vm_compute; reflexivity|]. repeat (split; [reflexivity|]).
-  intros tr s' Hn Hx. destruct tr as [|l tr]; [now injection Hx as <-|].
-  exfalso. simpl in Hn. apply andb_prop in Hn. destruct Hn as [Hl _].
-  destruct l as [|sig|i]; [| discriminate |].
-  - simpl in Hx. discriminate.
-  - destruct i as [|[|j]]; simpl in Hx; try discriminate. destruct j; discriminate.
-Qed.
-
-(* with the alarm recorded in that window and a step that ends by itself: 124, nothing killed *)
-Lemma window_alarm_before_waitpid :
-  exists s', exec [LRun; LRun; LRun; LRun; LRun; LArrive SIGALRM; LRun; LExit 0; LRun; LRun]
-               (init_tree two_procs_main_exits 1) = Some s' /\
-    observe s' = mkobs (RExit 124) MReaped [false; true] [] /\
-    terminated (s_pc s') = true /\
-    ~ spec (flatten two_procs_main_exits) (history_of s') (observe s').
-Proof.
-  eexists. split; [vm_compute; reflexivity|]. split; [reflexivity|]. split; [reflexivity|].
-  unfold spec. simpl. intros [_ (c & _ & _ & _ & [Hk|(Hk & _)] & _)]; discriminate.
-Qed.
-
-(* inside the guarantee, but the reason for the "unless" in [cut_ok]: SIGTERM interrupts the wait,
-   the main process exits 0 by itself before the kill reaches it, the runner reports that 0 *)
-Lemma status_zero_after_term :
-  exists s', exec [LRun; LRun; LRun; LRun; LRun; LArrive SIGTERM; LExit 0; LRun; LRun; LRun; LRun]
-               (init_tree two_procs_main_exits 0) = Some s' /\
-    observe s' = mkobs (RExit 0) MReaped [false; false] [SIGTERM] /\
-    spec (flatten two_procs_main_exits) (history_of s') (observe s').
-Proof.
-  eexists. split; [vm_compute; reflexivity|]. split; [reflexivity|].
-  apply (all_points_partial two_procs_main_exits 0
-           [LRun; LRun; LRun; LRun; LRun; LArrive SIGTERM; LExit 0; LRun; LRun; LRun; LRun]);
-    reflexivity.
+  assert (Hup : forall script, exists tr, exec tr s =
+             Some (i_state (fold_left (fun st a => interp1 a st) script
+                      (mkistate (match group_up s with Some s' => s' | None => s end) Free [] false)))).
+  { intros sc. destruct (group_up s) as [s1|] eqn:E.
+    - destruct (H sc (mkistate s1 Free [] false)) as [tr Htr]. exists (LUp :: tr). simpl. rewrite E. exact Htr.
+    - apply (H sc (mkistate s Free [] false)). }
+  unfold interp. destruct script as [|a script]; [apply Hup|].
+  destruct a; try apply Hup. apply (H script (mkistate s Free [] false)).
 Qed.
 
 (* ---- the boolean oracle reflects the specification ------------------------------------------------------------------------------ *)
@@ -1211,6 +928,11 @@ Proof.
     destruct (m_early m) as [k|] eqn:E; [|discriminate].
     apply andb_prop in HR. destruct HR as [Hs HR].
     split; [reflexivity|]. exists m, ms', k. split; [reflexivity|]. split; [exact E|]. split; [exact Hs|].
+    destruct (h_slow h).
+    { apply andb_prop in HR. destruct HR as [H1 H2]. apply negb_true_iff in H1. apply Z.eqb_neq in H1.
+      split; [exact H1|]. intros Hk. apply orb_prop in H2. destruct H2 as [H2|H2].
+      - apply Z.eqb_eq in H2. contradiction.
+      - now apply Z.eqb_eq. }
     destruct (opt_is (h_late h) SIGALRM) eqn:El.
     + right. split; [now apply opt_is_spec|now apply Z.eqb_eq].
     + left. split; [intros Hl; apply opt_is_spec in Hl; congruence|now apply Z.eqb_eq].
@@ -1221,6 +943,10 @@ Proof.
     + now apply alive_matches_spec.
     + destruct (o_result o) as [c|g|] eqn:Er; [|exfalso; now apply (HNK g)|reflexivity].
       destruct (HX c eq_refl) as (Hm & m & ms' & k & -> & E & Hs & Hc). rewrite Hm, E, Hs. simpl.
+      destruct (h_slow h).
+      { destruct Hc as [Hc0 Hck]. apply andb_true_intro. split.
+        - apply negb_true_iff. now apply Z.eqb_neq.
+        - destruct (Z.eqb_spec (k mod 256) 0) as [Hz|Hnz]; [reflexivity|]. simpl. apply Z.eqb_eq. now apply Hck. }
       destruct Hc as [(Hl & ->)|(Hl & ->)].
       * destruct (opt_is (h_late h) SIGALRM) eqn:El; [apply opt_is_spec in El; contradiction|apply Z.eqb_refl].
       * rewrite (proj2 (opt_is_spec _ _) Hl). reflexivity.
